@@ -249,6 +249,13 @@ func passportWithPrefix(rng *Rng, nibble int, used map[string]bool) string {
 		}
 	}
 }
+// midTripOf decides "mid-trip" from the stored markers, independently of TripHistory.MidTrip():
+// no flights yet, or the newest flight is neither a trip end nor a traveller's trip end
+func midTripOf(t *flap.Traveller) bool {
+	e := t.VerifTripHistory().VerifEntries()[0]
+	return e.Start == 0 || (e.Et != 2 && e.Et != 3)
+}
+
 func hexVal(c byte) byte {
 	if c >= 'a' {
 		return c - 'a' + 10
@@ -412,7 +419,10 @@ func (s *engSession) submit(i int, fs []flap.VerifFlight, now uint64, debit bool
 	expectGrounded := false
 	c02applies := true
 	if had {
-		mid := before.MidTrip()
+		mid := midTripOf(&before)
+		if mid != before.MidTrip() {
+			s.fail("C02", "midtrip-disagrees-with-markers", fmt.Sprintf("MidTrip() = %v but the newest flight carries marker %d", before.MidTrip(), before.VerifTripHistory().VerifEntries()[0].Et))
+		}
 		clr := before.Kept.Clearance
 		if clr != 0 {
 			if c, err := before.Promises.VerifMatch(before.Kept); err == nil {
@@ -492,7 +502,7 @@ func (s *engSession) submit(i int, fs []flap.VerifFlight, now uint64, debit bool
 		}
 		if expectGrounded {
 			s.stat["c02_grounded_cases"]++
-		} else if had && !before.MidTrip() {
+		} else if had && !midTripOf(&before) {
 			s.stat["c02_cleared_at_trip_start"]++
 		}
 	}
@@ -521,9 +531,20 @@ func (s *engSession) update(now uint64) (int64, flap.UpdateBackfillStats) {
 	p := s.eng.Administrator.GetParams()
 	prevGrounded := s.eng.Administrator.VerifTotalGrounded()
 	pcBefore := s.eng.Administrator.VerifPC()
+	predBefore := s.eng.Administrator.VerifPredictor()
 	st, err := s.eng.UpdateTripsAndBackfill(flap.EpochTime(now))
 	code := engErrCode(err)
 	ps := s.eng.Administrator.VerifPredictor()
+	// C10/C11: the predictor's version changes when and only when its fitted curve changes
+	if predBefore.Kind == ps.Kind && ps.Kind != 0 {
+		fitChanged := fbits(predBefore.M) != fbits(ps.M) || fbits(predBefore.C) != fbits(ps.C) || len(predBefore.Consts) != len(ps.Consts)
+		for k := 0; !fitChanged && k < len(ps.Consts); k++ {
+			fitChanged = fbits(predBefore.Consts[k]) != fbits(ps.Consts[k])
+		}
+		if fitChanged != (predBefore.Pv != ps.Pv) {
+			s.fail("C10", "version-does-not-track-fit", fmt.Sprintf("daily update at %d: fitted curve changed = %v (m %v -> %v, c %v -> %v, constants %v -> %v) but version %d -> %d", now, fitChanged, predBefore.M, ps.M, predBefore.C, ps.C, predBefore.Consts, ps.Consts, predBefore.Pv, ps.Pv))
+		}
+	}
 	var fit []string
 	for _, c := range ps.Consts {
 		fit = append(fit, fmt.Sprint(fbits(c)))
@@ -612,7 +633,7 @@ func (s *engSession) update(now uint64) (int64, flap.UpdateBackfillStats) {
 			hb := b.VerifTripHistory().VerifEntries()[0]
 			ha := after.VerifTripHistory().VerifEntries()[0]
 			keptNow := ha.Et == 3 && hb.Et != 3
-			midAfterRules := after.MidTrip()
+			midAfterRules := midTripOf(&after)
 			if keptNow {
 				midAfterRules = true
 			}
